@@ -346,7 +346,7 @@ Proof. intros e H. destruct e; try reflexivity; contradiction H. Qed.
 Lemma JournalOk_effect : forall e w, JG e -> JournalOk w -> JournalOk (apply_effect e w).
 Proof.
   intros e w Hg Hj. destruct (is_hlog e) eqn:Eh.
-  - destruct e; try discriminate Eh. cbn [JG] in Hg. destruct Hg as [r Hr].
+  - destruct e as [ | pid ppl | name rid | name | old new | hname | ies | line | bname bline | dbname | lst | gst | fpath fdata | rpath | mpath ]; try discriminate Eh. cbn [JG] in Hg. destruct Hg as [r Hr].
     apply (JournalOk_append w line r Hj Hr).
   - apply (JournalOk_bytes w); [|exact Hj]. rewrite hlog_bytes_effect.
     destruct e; try discriminate Eh; cbn [hlog_line]; apply app_nil_r.
@@ -358,7 +358,7 @@ Proof. cbn. intuition discriminate. Qed.
 Lemma NamesClean_effect : forall e w, JG e -> NamesClean w -> NamesClean (apply_effect e w).
 Proof.
   intros e w Hg [Hr Hh]. unfold NamesClean.
-  destruct e; autorewrite with wfields; cbn [JG] in Hg; try (split; assumption).
+  destruct e as [ | pid ppl | name rid | name | old new | hname | ies | line | bname bline | dbname | lst | gst | fpath fdata | rpath | mpath ]; autorewrite with wfields; cbn [JG] in Hg; try (split; assumption).
   - (* EInit *) split; [exact Hr | exact jf_main_clean].
   - (* ESetRef *) split; [|exact Hh]. intros n Hn. rewrite am_mem_set in Hn.
     apply orb_true_iff in Hn. destruct Hn as [Hn|Hn]; [apply bytes_eqb_eq in Hn; subst n; exact Hg | apply Hr; exact Hn].
@@ -1057,7 +1057,7 @@ Proof.
             hoare Tr (JGq H q) (eq w) m (fun _ _ => True)).
   { intros m q Hm. apply hoare_at with (P := fun _ : world => True); [apply emits_hoare; exact Hm | exact Logic.I]. }
   unfold run_cmd. apply at_bind_getw.
-  destruct c; cbn [quiet_cmd cmd_post].
+  destruct c as [ | global cargs | aargs | rmargs | msg | | bargs blist rename delete | sargs create | soft mixed hard rargs | staged rsargs | uargs | ln | | ct cp cfargs | hoargs | lss | rpargs | ]; cbn [quiet_cmd cmd_post].
   1: { apply Hstat. apply cmd_init_je. }
   all: apply at_bind_guard; intros Hinit;
        apply at_bind with (R := fun x w' => w' = w /\ ctx_of w = Some x); [apply load_ctx_at|];
@@ -1073,10 +1073,10 @@ Proof.
   - apply hoare_post_ex with (Q := fun _ w' => branch_post e x w rename w');
       [intros _ w' Hp; exists x; auto | apply cmd_branch_spec; [exact Hx|]].
     intro Hh. destruct (Hid Hh) as [Hn Hi]. destruct (Hhyp Hh) as [_ [Ha Hr]]. auto.
-  - apply hoare_post_ex with (Q := fun _ w' => switch_post e x w args create w');
+  - apply hoare_post_ex with (Q := fun _ w' => switch_post e x w sargs create w');
       [intros _ w' Hp; exists x; auto | apply cmd_switch_spec; [exact Hx|]].
     intro Hh. destruct (Hid Hh) as [Hn Hi]. destruct (Hhyp Hh) as [_ Hc]. auto.
-  - apply hoare_post_ex with (Q := fun _ w' => reset_post e x w args w');
+  - apply hoare_post_ex with (Q := fun _ w' => reset_post e x w rargs w');
       [intros _ w' Hp; exists x; auto | apply cmd_reset_spec; assumption].
   - apply Hstat, cmd_restore_je.
   - apply cmd_update_ref_spec. intro Hh. exact (proj1 (Hid Hh)).
@@ -1149,6 +1149,15 @@ Proof.
   - exact Hi.
   - inversion Hh as [|a' h' Ha Hh']; subst. rewrite run_cons. apply IH; [exact Hh'|].
     apply JInv_step; assumption.
+Qed.
+
+(* in the words of the task: the journal stays readable through every step
+   from a world whose configuration is clean ([Inv.CfgGood]) *)
+Corollary JournalOk_step : forall a w,
+  action_names_clean a -> JournalOk w -> NamesClean w -> CfgGood w -> JournalOk (step_w a w).
+Proof.
+  intros a w Ha Hj Hn Hc.
+  exact (proj1 (JInv_step a w Ha (conj Hj (conj Hn (CfgGood_CfgVals w Hc))))).
 Qed.
 
 (* every history Goit itself produced, with newline-free branch-name
@@ -1298,7 +1307,7 @@ Definition journal_kind (c : cmd) : option rtype :=
 
 Lemma journal_kind_quiet : forall c, journal_kind c = None <-> quiet_cmd c = true.
 Proof.
-  intro c. destruct c; cbn [journal_kind quiet_cmd]; try (split; [reflexivity | reflexivity]);
+  intro c. destruct c as [ | global cargs | aargs | rmargs | msg | | bargs blist rename delete | sargs create | soft mixed hard rargs | staged rsargs | uargs | ln | | ct cp cfargs | hoargs | lss | rpargs | ]; cbn [journal_kind quiet_cmd]; try (split; [reflexivity | reflexivity]);
     try (split; intro Hd; discriminate Hd).
   destruct (is_nil rename); split; intro Hd; try reflexivity; discriminate Hd.
 Qed.
@@ -1315,7 +1324,7 @@ Proof.
   { intros Hq Hd. rewrite Hd, app_nil_r. unfold hlog_bytes.
     rewrite (quiet_cmd_untouched _ _ _ _ _ _ Hq Hs). exact Hrs. }
   pose proof (appended_step _ _ _ _ _ _ Hs) as Hp.
-  destruct c; cbn [cmd_post] in Hp; try (apply Hquiet; reflexivity).
+  destruct c as [ | global cargs | aargs | rmargs | msg | | bargs blist rename delete | sargs create | soft mixed hard rargs | staged rsargs | uargs | ln | | ct cp cfargs | hoargs | lss | rpargs | ]; cbn [cmd_post] in Hp; try (apply Hquiet; reflexivity).
   - (* commit *)
     destruct Hp as (x & Hx & cid & Hlen & Hhead & _ & Hb).
     pose proof (ctx_ident_clean w x Hcfg Hx) as Hid.
@@ -1373,7 +1382,7 @@ Proof.
   exists rs, (journal_delta c w w'). split; [exact Hrs|]. split; [exact Hrs'|].
   split; [intros i Hlt; apply nth_error_app1; exact Hlt|].
   split; [intro n; apply get_record_app_many|].
-  destruct c; cbn [journal_delta journal_kind]; try reflexivity.
+  destruct c as [ | global cargs | aargs | rmargs | msg | | bargs blist rename delete | sargs create | soft mixed hard rargs | staged rsargs | uargs | ln | | ct cp cfargs | hoargs | lss | rpargs | ]; cbn [journal_delta journal_kind]; try reflexivity.
   destruct (is_nil rename); reflexivity.
 Qed.
 
@@ -1390,7 +1399,7 @@ Proof.
   intros e c w w' out tr ty Hi Hc Hs Hk.
   destruct (reflog_extends e c w w' out tr Hi Hc Hs) as (rs & _ & Hrs').
   assert (Hlast : exists pre msg, journal_delta c w w' = pre ++ [rec_of (head_id w') ty msg]).
-  { destruct c; cbn [journal_kind] in Hk; try discriminate Hk; cbn [journal_delta].
+  { destruct c as [ | global cargs | aargs | rmargs | msg | | bargs blist rename delete | sargs create | soft mixed hard rargs | staged rsargs | uargs | ln | | ct cp cfargs | hoargs | lss | rpargs | ]; cbn [journal_kind] in Hk; try discriminate Hk; cbn [journal_delta].
     - injection Hk as <-. exists [], (first_line msg). reflexivity.
     - destruct (is_nil rename); [discriminate Hk|]. injection Hk as <-.
       exists [rec_of None RBranch (rename_msg' (w_head w) rename)], (rename_msg' (w_head w) rename). reflexivity.
@@ -1423,7 +1432,7 @@ Proof.
   - exists []. rewrite app_nil_r. exact Hrs.
   - inversion Hall as [|x' tr' Hx Htr]; subst. rewrite apply_effects_cons.
     destruct (is_hlog x) eqn:Ex.
-    + destruct x; try discriminate Ex. cbn [JG] in Hx. destruct Hx as [r Hr].
+    + destruct x as [ | pid ppl | name rid | name | old new | hname | ies | line | bname bline | dbname | lst | gst | fpath fdata | rpath | mpath ]; try discriminate Ex. cbn [JG] in Hx. destruct Hx as [r Hr].
       destruct (journal_append _ rs line r Hrs Hend Hr) as [Hp He].
       destruct (IH (apply_effect (EAppendHlog line) w) (rs ++ [r]) Htr) as [rs' Hrs'].
       * rewrite hlog_bytes_effect. exact Hp.
@@ -1470,3 +1479,185 @@ Proof.
     rewrite Hrs1 in Hrs1'. injection Hrs1' as <-.
     exists rs, (rs1 ++ rs2). rewrite Hrs2, app_assoc. auto.
 Qed.
+
+(* ================================================================== *)
+(** * 8. A worked history (by computation) *)
+
+Definition jx_env : env := mkEnv 1700000000 32400.
+Definition jx_cmd (c : cmd) : action := ACmd jx_env c.
+
+(* "fix: a: b\tc" and a second line of four words *)
+Definition jx_msg1 : bytes := str "fix: a: b"%string ++ [c_tab] ++ str "c"%string ++ [c_nl] ++ str "more words here now"%string.
+(* a first line that ends in '\r' *)
+Definition jx_msg2 : bytes := str "second"%string ++ [c_cr; c_nl] ++ str "body"%string.
+
+Definition jx_base : list action :=
+  [jx_cmd CInit;
+   jx_cmd (CConfig false [str "user.name"%string; str "Al Bo"%string]);
+   jx_cmd (CConfig false [str "user.email"%string; str "a@b.co"%string]);
+   AEdit (UWrite (str "f"%string) (str "x"%string));
+   jx_cmd (CAdd [str "f"%string]);
+   jx_cmd (CCommit jx_msg1)].
+
+Definition jx_more : list action :=
+  [jx_cmd (CSwitch [] (str "dev"%string));
+   AEdit (UWrite (str "g"%string) (str "y"%string));
+   jx_cmd (CAdd [str "g"%string]);
+   jx_cmd (CCommit jx_msg2)].
+
+Definition jx_w1 : world := Eval vm_compute in run jx_base w_empty.
+Definition jx_w2 : world := Eval vm_compute in run jx_more jx_w1.
+Definition jx_reset : world * outcome * list effect :=
+  Eval vm_compute in step (jx_cmd (CReset true false false [str "HEAD@{1}"%string])) jx_w2.
+Definition jx_w3 : world := fst (fst jx_reset).
+
+Example jx_names_clean : Forall action_names_clean (jx_base ++ jx_more).
+Proof. repeat constructor; cbn; intuition discriminate. Qed.
+
+Example jx_reset_ok : snd (fst jx_reset) = OOk [].
+Proof. vm_compute. reflexivity. Qed.
+
+(* the journal of the final world: four records, oldest first; HEAD@{1} was
+   the checkout record, which names the first commit *)
+Example jx_journal :
+  parse_reflog (hlog_bytes jx_w3) =
+  Some [mkRec (head_id jx_w1) RCommit (str "fix: a: b"%string ++ [c_tab] ++ str "c"%string);
+        mkRec (head_id jx_w1) RCheckout (str "moving from main to dev"%string);
+        mkRec (head_id jx_w2) RCommit (str "second"%string);
+        mkRec (head_id jx_w1) RReset (str "moving to HEAD@{1}"%string)]
+  /\ head_id jx_w3 = head_id jx_w1
+  /\ w_head jx_w3 = str "dev"%string
+  /\ head_id jx_w1 <> head_id jx_w2 /\ head_id jx_w1 <> None /\ head_id jx_w2 <> None.
+Proof. vm_compute. repeat split; try reflexivity; discriminate. Qed.
+
+(* what [reflog] prints in that world: newest first, numbered from 0 *)
+Example jx_reflog_output :
+  snd (fst (step (jx_cmd CReflog) jx_w3)) =
+  OOk [short_id (head_id jx_w1) ++ str " 0 reset moving to HEAD@{1}"%string;
+       short_id (head_id jx_w2) ++ str " 1 commit second"%string;
+       short_id (head_id jx_w1) ++ str " 2 checkout moving from main to dev"%string;
+       short_id (head_id jx_w1) ++ str " 3 commit fix: a: b"%string ++ [c_tab] ++ str "c"%string].
+Proof. vm_compute. reflexivity. Qed.
+
+Example jx_w2_eq : jx_w2 = run (jx_base ++ jx_more) w_empty.
+Proof. vm_compute. reflexivity. Qed.
+
+Example jx_inv : JInv jx_w2.
+Proof. rewrite jx_w2_eq. apply JInv_run; [exact jx_names_clean | apply JInv_empty]. Qed.
+
+(* the general theorems applied to the last step of that history *)
+Example jx_reset_extends :
+  exists rs, parse_reflog (hlog_bytes jx_w2) = Some rs /\
+             parse_reflog (hlog_bytes jx_w3) =
+             Some (rs ++ [rec_of (head_id jx_w3) RReset (str "moving to HEAD@{1}"%string)]).
+Proof.
+  assert (Hs : step (jx_cmd (CReset true false false [str "HEAD@{1}"%string])) jx_w2 = (jx_w3, OOk [], snd jx_reset))
+    by (vm_compute; reflexivity).
+  exact (reflog_extends jx_env (CReset true false false [str "HEAD@{1}"%string]) _ _ _ _ jx_inv Logic.I Hs).
+Qed.
+
+(* ================================================================== *)
+(** * 9. The three corrections, exhibited *)
+
+(* 9.1 a branch name with a newline breaks the journal.  [valid_branch_name]
+   accepts it; the checkout line then spans two lines, and the second one,
+   "x y z", is read as a record whose id field "y" is not a hash: the whole
+   load fails, so [reflog] and [reset] are refused from then on. *)
+Definition jx_bad_name : bytes := str "a"%string ++ [c_nl] ++ str "x y z"%string.
+
+Example jx_bad_name_valid : valid_branch_name jx_bad_name = true.
+Proof. vm_compute. reflexivity. Qed.
+
+Definition jx_bad : world * outcome * list effect :=
+  Eval vm_compute in step (jx_cmd (CSwitch [] jx_bad_name)) jx_w1.
+
+Example jx_bad_breaks_journal :
+  JournalOk jx_w1 /\
+  snd (fst jx_bad) = OOk [] /\
+  parse_reflog (hlog_bytes (fst (fst jx_bad))) = None /\
+  snd (fst (step (jx_cmd CReflog) (fst (fst jx_bad)))) = OErr /\
+  snd (fst (step (jx_cmd (CReset true false false [str "HEAD@{0}"%string])) (fst (fst jx_bad)))) = OErr.
+Proof.
+  split.
+  - split; [eexists; vm_compute; reflexivity | right; vm_compute; reflexivity].
+  - vm_compute. repeat split; reflexivity.
+Qed.
+
+(* so [JournalOk] is not kept without the hypothesis on the name arguments *)
+Example jx_bad_not_ok : ~ JournalOk (step_w (jx_cmd (CSwitch [] jx_bad_name)) jx_w1).
+Proof.
+  intros [[rs Hrs] _].
+  assert (Hn : parse_reflog (hlog_bytes (step_w (jx_cmd (CSwitch [] jx_bad_name)) jx_w1)) = None)
+    by (vm_compute; reflexivity).
+  rewrite Hn in Hrs. discriminate Hrs.
+Qed.
+
+(* a newline followed by fewer than two blanks is harmless for the reader
+   (the stray line is skipped), but the message is cut: *)
+Example jx_cut_name :
+  parse_reflog (hlog_bytes (step_w (jx_cmd (CSwitch [] (str "a"%string ++ [c_nl] ++ str "b"%string))) jx_w1))
+  = Some [mkRec (head_id jx_w1) RCommit (str "fix: a: b"%string ++ [c_tab] ++ str "c"%string);
+          mkRec (head_id jx_w1) RCheckout (str "moving from main to a"%string)].
+Proof. vm_compute. reflexivity. Qed.
+
+(* 9.2 [Inv.CfgGood] asks for tab-free SECTION names, which [config] does
+   not guarantee: the section of "a\tb.k" is written as "[a\tb]" and loaded
+   back with its tab *)
+Definition jx_tab_key : bytes := str "a"%string ++ [c_tab] ++ str "b.k"%string.
+
+Example ex_section_tab :
+  cfg_load (cfg_render [(str "a"%string ++ [c_tab] ++ str "b"%string, [(str "k"%string, str "v"%string)])])
+  = Some [(str "a"%string ++ [c_tab] ++ str "b"%string, [(str "k"%string, str "v"%string)])].
+Proof. vm_compute. reflexivity. Qed.
+
+Example jx_cfggood_not_kept :
+  CfgGood (run [jx_cmd CInit] w_empty) /\
+  ~ CfgGood (run [jx_cmd CInit; jx_cmd (CConfig false [jx_tab_key; str "v"%string])] w_empty).
+Proof.
+  split.
+  - split; intros c Hc; vm_compute in Hc; injection Hc as <-; constructor.
+  - intros [Hl _].
+    specialize (Hl [(str "a"%string ++ [c_tab] ++ str "b"%string, [(str "k"%string, str "v"%string)])]).
+    assert (Hc : cfg_of (w_lcfg (run [jx_cmd CInit; jx_cmd (CConfig false [jx_tab_key; str "v"%string])] w_empty))
+                 = Some [(str "a"%string ++ [c_tab] ++ str "b"%string, [(str "k"%string, str "v"%string)])])
+      by (vm_compute; reflexivity).
+    specialize (Hl Hc). inversion Hl as [|sm c' [[_ Htab] _] _]; subst.
+    apply Htab. cbn. auto.
+Qed.
+
+(* 9.3 the record reads back with [drop_cr] of the message and [id_back] of
+   the id: see the third record of [jx_journal] (the first line of the
+   message was "second\r") and [ReflogFacts.ex_zero_id_reads_none] *)
+Example jx_cr_dropped : first_line jx_msg2 = str "second"%string ++ [c_cr]
+  /\ r_msg (rec_of None RCommit (first_line jx_msg2)) = str "second"%string.
+Proof. vm_compute. split; reflexivity. Qed.
+
+(* ================================================================== *)
+Print Assumptions hlog_append_only_step.
+Print Assumptions hlog_append_only_run.
+Print Assumptions hlog_kept_run.
+Print Assumptions journal_append.
+Print Assumptions cfg_load_vals_clean.
+Print Assumptions run_cmd_spec.
+Print Assumptions JInv_step.
+Print Assumptions JournalOk_step.
+Print Assumptions JInv_run.
+Print Assumptions JInv_fault.
+Print Assumptions journal_reads_back.
+Print Assumptions reflog_total.
+Print Assumptions quiet_cmd_untouched.
+Print Assumptions appended_step.
+Print Assumptions commit_appends.
+Print Assumptions switch_appends.
+Print Assumptions reset_appends.
+Print Assumptions rename_appends.
+Print Assumptions reflog_extends.
+Print Assumptions reflog_extends_positions.
+Print Assumptions reflog_head_entry.
+Print Assumptions journal_extends_step.
+Print Assumptions journal_extends_run.
+Print Assumptions jx_journal.
+Print Assumptions jx_reflog_output.
+Print Assumptions jx_reset_extends.
+Print Assumptions jx_bad_breaks_journal.
+Print Assumptions jx_cfggood_not_kept.
